@@ -31,8 +31,11 @@ Print Assumptions C09_rate_bound.
    bucket-mode deadlines: the monitor evaluated by the correspondence check
    (every read happens while burst + refill accrued since the current limit
    took effect exceeds the bytes already read under that limit; every
-   deadline is at most 2*now + u32::MAX periods; no panic) holds of the model
-   for EVERY input. *)
+   deadline is at most 2*now + u32::MAX periods; no panic; and the resume clause:
+   every poll that returns Pending although the client has input happens while the
+   bucket in effect — after a pending reconfiguration has installed its full bucket —
+   is empty and before the first refill instant at which it is positive again)
+   holds of the model for EVERY input. *)
 Theorem C09_model_satisfies_monitor : forall i, monitor i (model i) = true.
 Proof. exact model_monitor. Qed.
 Print Assumptions C09_model_satisfies_monitor.
@@ -101,3 +104,24 @@ Theorem C09_from_config_wf : forall now c,
              last_fill b = now /\ period b = PER100).
 Proof. exact from_config_cases. Qed.
 Print Assumptions C09_from_config_wf.
+
+(* The resume clause of the monitor on one poll observed Pending, in words: either the
+   client had no input, or a limit is in effect, its bucket (installed full when the limit
+   took effect, then debited by the observed reads as Bucket::consume debits it) is empty,
+   and the timer of the first refill instant of that bucket's own period grid at which its
+   fill is positive again has not fired yet: a reader is never left sleeping past what the
+   CURRENT limit requires. *)
+Theorem C09_monitor_resume_clause : forall sb avail now,
+  pending_ok sb avail now = true <->
+  avail = 0 \/ exists b, sb = Some b /\ fill b <= 0 /\ fired (first_positive b) now = false.
+Proof. exact pending_ok_spec. Qed.
+Print Assumptions C09_monitor_resume_clause.
+
+(* The resume clause holds along every run of the model's reader, from any state in which
+   the monitor's bucket is the reader's bucket and a pending refill sleep ends no later
+   than the bucket's first positive refill instant (C09_resume_bound keeps it so). *)
+Theorem C09_reader_never_oversleeps : forall es s sb now os k,
+  res_match sb s -> run_reader s now es = Ok (os, k) ->
+  mon_resume sb (pend s) now es os = true.
+Proof. exact mon_resume_model. Qed.
+Print Assumptions C09_reader_never_oversleeps.
